@@ -1037,7 +1037,14 @@ impl<'a, 'b> GeneratorState<'a> {
             Some(else_statement) => {
                 let else_label = format!(".else{}", self.local_label_counter_if);
                 self.generate_condition(condition, pos, true, &else_label, false)?;
-                let saved_flags = self.flags.clone();
+                // What is known about the flags after the condition is only known at the else
+                // label when a single test jumps there: with && and || there are several
+                // jumps, each with the flags of its own test
+                let saved_flags = if has_single_exit(condition) {
+                    self.flags.clone()
+                } else {
+                    FlagsState::Unknown
+                };
                 self.generate_statement(body)?;
                 self.asm(JMP, &ExprType::Label(ifend_label.clone()), 0, false)?;
                 self.label(&else_label)?;
@@ -1134,6 +1141,14 @@ impl<'a, 'b> GeneratorState<'a> {
         self.label(&switchend_label)?;
         self.loops.pop();
         Ok(())
+    }
+}
+
+fn has_single_exit(condition: &Expr) -> bool {
+    match condition {
+        Expr::BinOp { op, .. } => !matches!(op, Operation::Land | Operation::Lor),
+        Expr::Not(e) => has_single_exit(e),
+        _ => true,
     }
 }
 
